@@ -505,39 +505,39 @@ type ModLoc struct {
 }
 
 type Contract struct {
-	Pkg       string // package path the contract file belongs to ("" for assumed = absolute names)
-	Func      string // function name as written
-	Params    []string
-	Results   []string
-	Props     []string
-	Requires  []*Clause
-	Ensures   []*Clause
-	Modifies  []ModLoc
-	HasMod    bool
-	LoopInv   map[int][]*Clause
-	LoopMod   map[int][]ModLoc
-	Safety    bool
-	Trusted   bool
-	Pure      bool
-	NoEffect  bool
-	Nullable  map[string]bool
-	Interf    string
-	Expect    []ExpectCall
-	Sites     []*Clause
-	File      string
-	Line      int
-	Assumed   bool
-	Inline    bool
-	RetClosure    string   // returnsclosure NAME: the (single) result is a closure of that function
-	FuncSetGlobal string   // funcset GLOBAL = f1, f2: dynamic calls through this immutable table are one of these
+	Pkg           string // package path the contract file belongs to ("" for assumed = absolute names)
+	Func          string // function name as written
+	Params        []string
+	Results       []string
+	Props         []string
+	Requires      []*Clause
+	Ensures       []*Clause
+	Modifies      []ModLoc
+	HasMod        bool
+	LoopInv       map[int][]*Clause
+	LoopMod       map[int][]ModLoc
+	Safety        bool
+	Trusted       bool
+	Pure          bool
+	NoEffect      bool
+	Nullable      map[string]bool
+	Interf        string
+	Expect        []ExpectCall
+	Sites         []*Clause
+	File          string
+	Line          int
+	Assumed       bool
+	Inline        bool
+	RetClosure    string // returnsclosure NAME: the (single) result is a closure of that function
+	FuncSetGlobal string // funcset GLOBAL = f1, f2: dynamic calls through this immutable table are one of these
 	FuncSet       []string
-	FreshRes  bool
-	NonNilRes bool
-	SpawnMod  []ModLoc
-	SpawnEns  []*Clause
-	LoopStep  map[int][]*Clause
-	Variant   string
-	Records   []Record
+	FreshRes      bool
+	NonNilRes     bool
+	SpawnMod      []ModLoc
+	SpawnEns      []*Clause
+	LoopStep      map[int][]*Clause
+	Variant       string
+	Records       []Record
 }
 
 // Record: definitional ghost instrumentation — at every call of the function the ghost NAME is set to EXPR
@@ -1061,7 +1061,6 @@ func parseSpecText(src, pkg, file string, assumed bool) (*SpecFile, error) {
 	}
 	return sf, nil
 }
-
 
 // stripTrailingComment removes a "// ..." comment that follows contract text on a //@ line.
 func stripTrailingComment(l string) string {
